@@ -366,7 +366,7 @@ loop:
 		result = vector
 	case parser.ValueTypeScalar:
 		v := math.NaN()
-		if len(series) != 0 {
+		if len(series) != 0 && len(series[0].Points) != 0 {
 			v = series[0].Points[0].V
 		}
 		result = promql.Scalar{V: v, T: q.ts.UnixMilli()}
